@@ -610,14 +610,16 @@ pub fn run<KD: Kind, const N: usize>(case: &Case, cx: &mut Ctx) {
 
 /// Dispatch on (kind, capacity).
 pub fn run_dyn(case: &Case, cx: &mut Ctx) {
-    use mmv_base::kinds::{Large, Plain, Str, Tracked, ZstKey, ZstVal};
+    use mmv_base::kinds::{Large, NoDrop, Plain, Str, Tracked, ZstBoth, ZstKey, ZstVal};
     let n = mmv_base::capacity_of(case);
-    match case.kind % 6 {
+    match case.kind % mmv_base::case::NKINDS {
         0 => mmv_base::by_cap!(run, Tracked, n, case, cx, [0, 1, 2, 3, 4, 6, 9, 17]),
         1 => mmv_base::by_cap!(run, Plain, n, case, cx, [0, 1, 2, 3, 4, 6, 9, 17]),
         2 => mmv_base::by_cap!(run, Str, n, case, cx, [0, 1, 2, 3, 4, 6]),
         3 => mmv_base::by_cap!(run, Large, n, case, cx, [0, 1, 2, 4]),
         4 => mmv_base::by_cap!(run, ZstKey, n, case, cx, [0, 1]),
-        _ => mmv_base::by_cap!(run, ZstVal, n, case, cx, [0, 1, 3]),
+        5 => mmv_base::by_cap!(run, ZstVal, n, case, cx, [0, 1, 3]),
+        6 => mmv_base::by_cap!(run, NoDrop, n, case, cx, [0, 1, 2, 3, 4, 6]),
+        _ => mmv_base::by_cap!(run, ZstBoth, n, case, cx, [0, 1, 2]),
     }
 }
